@@ -777,6 +777,9 @@ func (vc *vCtx) call(x *ast.CallExpr) ([]string, error) {
 	}
 	ci := vCallees[vc.module+"|"+fn.FullName()]
 	if ci == nil {
+		ci = vc.autoCallee(fn)
+	}
+	if ci == nil {
 		if recv != nil && len(x.Args) == 0 {
 			if field, ok := vc.trivialGetterField(fn); ok {
 				s, err := vc.selectorOf(recv, field)
@@ -827,6 +830,48 @@ func (vc *vCtx) call(x *ast.CallExpr) ([]string, error) {
 		vc.pre = append(vc.pre, mbind{v, ".ok " + projOf(t, len(ci.results)+k, n)})
 	}
 	return rs, nil
+}
+
+// autoCallee: a function of the repository that a kernel calls but that tables.d does not list (and that is not a trivial
+// getter) is translated on the fly as an auxiliary definition `aux_<name>` emitted in front of the caller, so that a helper
+// introduced by a refactoring stays inside the regenerated text instead of making its callers untranslatable.
+var (
+	vAuxPending []string
+	vAuxBusy    = map[string]bool{}
+)
+
+func (vc *vCtx) autoCallee(fn *types.Func) *vFunc {
+	if fn.Pkg() == nil || !strings.HasPrefix(fn.Pkg().Path(), modPath) {
+		return nil
+	}
+	if _, ok := vc.trivialGetterField(fn); ok {
+		return nil
+	}
+	p2 := pkgs[fn.Pkg().Path()]
+	key := vc.module + "|" + fn.FullName()
+	if p2 == nil || vAuxBusy[key] {
+		return nil
+	}
+	name := fn.Name()
+	lean := "aux_" + name
+	if sig, ok := fn.Type().(*types.Signature); ok && sig.Recv() != nil {
+		t := sig.Recv().Type()
+		if pt, ok := t.(*types.Pointer); ok {
+			t = pt.Elem()
+		}
+		if n, ok := t.(*types.Named); ok {
+			name = n.Obj().Name() + "." + name
+			lean = "aux_" + n.Obj().Name() + "_" + fn.Name()
+		}
+	}
+	vAuxBusy[key] = true
+	defer delete(vAuxBusy, key)
+	text, err := genFuncV(p2, entry{"funcv", vc.module, lean, relPkg(fn.Pkg().Path()), name})
+	if err != nil {
+		return nil
+	}
+	vAuxPending = append(vAuxPending, "/-- auxiliary (not listed in tables.d; called by a kernel) -/\n"+text+"\n")
+	return vCallees[key]
 }
 
 func (vc *vCtx) selectorOf(recv ast.Expr, field string) (string, error) {
@@ -1832,7 +1877,15 @@ func genExtC04(p *packages.Package, e entry) (string, error) {
 	if e.kind == "ambient" {
 		return genAmbient(p, e)
 	}
-	return genFuncV(p, e)
+	vAuxPending = nil
+	text, err := genFuncV(p, e)
+	if err != nil {
+		vAuxPending = nil
+		return text, err
+	}
+	aux := strings.Join(vAuxPending, "\n")
+	vAuxPending = nil
+	return aux + text, nil
 }
 
 func genAmbient(p *packages.Package, e entry) (string, error) {
